@@ -178,6 +178,16 @@ func (ms *MessageStreamer) Go(ctx context.Context, conn StreamConnection) error 
 				if err := ms.doDelay(ctx, msg.Delay, time.Duration(msg.DelaySeconds*float64(time.Second))); err != nil {
 					return err
 				}
+				if msg.DelaySeconds <= 0 {
+					// a non-positive delay is a nack: the messages are no longer
+					// outstanding on this stream, release their flow control share
+					mu.Lock()
+					for _, id := range msg.Delay {
+						delete(pending, id)
+					}
+					tryWake()
+					mu.Unlock()
+				}
 			}
 		}
 	})
